@@ -99,9 +99,9 @@ def knownCompat (u : CUnit) : Option Nat :=
   | _ => Option.none
 
 /-- `SassNumber::has_possibly_compatible_units` (sass_number.rs:223).
-    `strict = false` is the code as it stands.  `strict = true` adds the rule of the reference
-    implementation that a unitless number is not compatible with a number that has a unit
-    (dart-sass compares the numerator-unit counts first); used for the specified variant. -/
+    `strict = true` is the code as it stands: a unitless number is not compatible with a number that
+    has a unit (sass_number.rs:229, as dart-sass).  `strict = false` is the rule found before
+    `fix:` b057818, kept for the as-found witness. -/
 def possiblyCompatible (strict : Bool) (a b : CUnit) : Bool :=
   if a.isComplex || b.isComplex then false else
   if strict && (a.isNone != b.isNone) then false else
@@ -311,15 +311,20 @@ structure Cfg where
   /-- `true`: `clamp` reduces only under `has_compatible_units` (calculation.rs:195, after the
       `fix:` commit for D1).  `false`: the guard found on the pinned tree, `is_comparable_to`. -/
   clampGuarded : Bool
-  /-- `false`: `clamp` as coded (`value <= min → min; value >= max → max; value`).
-      `true`: CSS `max(MIN, min(VAL, MAX))` (they differ exactly when `MAX < MIN < VAL`). -/
+  /-- `true`: `clamp` as it stands (`value <= min || max < min → min; value >= max → max; value`,
+      i.e. CSS `max(MIN, min(VAL, MAX))`).  `false`: the cascade found before `fix:` 26a5ec6, without
+      the `max < min` test (they differ exactly when `MAX < MIN < VAL`). -/
   clampCss : Bool
-  /-- passed to `possiblyCompatible`. -/
+  /-- passed to `possiblyCompatible`: `true` is the code as it stands (after `fix:` b057818),
+      `false` the rule found before. -/
   strict : Bool
   deriving Repr
 
-def Cfg.now : Cfg := ⟨true, false, false⟩
+def Cfg.now : Cfg := ⟨true, true, true⟩
 def Cfg.spec : Cfg := ⟨true, true, true⟩
+/-- the tree before the `fix:` commits 26a5ec6 (clamp order, D40) and b057818 (unitless operands, D41) -/
+def Cfg.asFound : Cfg := ⟨true, false, false⟩
+/-- and before 0ad6ed0 (clamp guard, D1) -/
 def Cfg.asFoundD1 : Cfg := ⟨false, false, false⟩
 
 /-- Result of a simplification step; `coerced` records that a unitless number was combined with a
@@ -432,12 +437,20 @@ def extremumFn (cfg : Cfg) (isMax : Bool) (args : List CalcArg) : Res Out :=
       (verifyCompatible cfg.strict args).bind fun _ =>
         .ok ⟨.calculation (if isMax then .max else .min) (CalcArgs.ofList args), false⟩
 
-/-- The reducing branch of `SassCalculation::clamp` (calculation.rs:189–206). -/
+/-- The reducing branch of `SassCalculation::clamp` (calculation.rs:189–212).
+    `clampCss = true` is the code as it stands (after `fix:` 26a5ec6): MIN also wins when
+    `MAX < MIN` (MAX converted to MIN's unit).  `clampCss = false` is the cascade found before. -/
 def clampReduce (cfg : Cfg) (mn v mx : Num) : Res Num :=
   match convert mn.n mn.u v.u, convert mx.n mx.u v.u with
   | some mn', some mx' =>
     if v.n ≤ mn' then .ok mn
-    else if cfg.clampCss && mx' ≤ mn' then .ok mn
+    else if cfg.clampCss then
+      match convert mx.n mx.u mn.u with
+      | some mxm =>
+        if mxm < mn.n then .ok mn
+        else if v.n ≥ mx' then .ok mx
+        else .ok v
+      | Option.none => .panic
     else if v.n ≥ mx' then .ok mx
     else .ok v
   | _, _ => .panic
@@ -953,7 +966,8 @@ def outStr : Res Out → String
   | .panic => "panic"
 
 def cfgOfStr : String → Option Cfg
-  | "now" => some Cfg.now | "spec" => some Cfg.spec | "d1" => some Cfg.asFoundD1 | _ => Option.none
+  | "now" => some Cfg.now | "spec" => some Cfg.spec | "old" => some Cfg.asFound | "d1" => some Cfg.asFoundD1
+  | _ => Option.none
 
 /-- `px deg s em rem pct vw a0 a1 …` -/
 def envOfStrs (ss : List String) : Option Env :=
